@@ -5,7 +5,7 @@ CONSTANTS Variant = "ok"
  MCN = 4
  MCTs = {2, 3}
  MCVs = {1, 2}
- PolyMode = "few"
+ PolyMode = "one"
  OrderMode = "eager"
  MaxDup = 0
 INVARIANTS TypeOK NoFailure ThresholdIsT Agreement KeyedByShareIdx OwnShareMatches GroupKeyIsSum AnyTRecover AnyTSign BelowThresholdSafe
